@@ -609,8 +609,11 @@ func specPreorderAll(roots []*Node, i int) []*Node {
 //@ loop gtree.treeSimple.walkIterProgrammably#1#1
 //@   invariant relay: itTrace1 == itTrace0 && !itFailed1 && !itStopped1
 //@   invariant grown: cfg.encode == encodeDefault ==> grown(cfg.lastNodeFormat, cfg.intermedialNodeFormat, root)
+// not implemented in the massive mode (it returns nil): it must never be reached, which the callers guarantee by
+// switching the massive option off before they build the tree
 //@ func gtree.treePipeline.walkIterProgrammably
 //@   assumed
+//@   requires never [C03,C05]: false
 //@   yields walkRelay(root, cfg)
 
 //@ stream walkOut(wn, e)
@@ -687,7 +690,7 @@ func specPreorderAll(roots []*Node, i int) []*Node {
 //@   invariant sofar: ret == specDryReport(cs.fileColor, cs.dirColor, cs.fileConsiderer.extensions, roots, $i)
 //@ func gtree.treeSimple.outputProgrammably
 //@   requires ok: simpleTreeOK(t, cfg) && root != nil && root.hierarchy == 1
-//@   modifies Node.brnch.value, Node.brnch.path, out, wfail, defaultGrowSpreaderSimple.w, defaultSpreaderSimple.w, counter.n, encTrace, encoders
+//@   modifies Node.brnch.value, Node.brnch.path, out, wfail, defaultGrowSpreaderSimple.w, defaultSpreaderSimple.w, counter.n, encTrace, encoders, spText
 //@   ensures render [C03,C13]: cfg.encode == encodeDefault && result == nil ==> out[w] == old(out[w]) ++ specRender(cfg.lastNodeFormat, cfg.intermedialNodeFormat, root)
 //@   ensures accepted [C14]: cfg.encode == encodeDefault && result == nil ==> wfail == old(wfail)
 //@   ensures text [C03]: cfg.encode == encodeDefault && result != nil ==> wfail
@@ -769,7 +772,7 @@ func specPreorderAll(roots []*Node, i int) []*Node {
 // The massive (pipeline) implementations are not under contract (C10, C11 are not applicable to this technique).
 //@ func gtree.treePipeline.outputProgrammably
 //@   requires ok: pipelineTreeOK(t, cfg) && root != nil && root.hierarchy == 1
-//@   modifies Node.brnch.value, Node.brnch.path, out, wfail, defaultGrowSpreaderSimple.w, defaultSpreaderSimple.w, counter.n, encTrace, encoders
+//@   modifies Node.brnch.value, Node.brnch.path, out, wfail, defaultGrowSpreaderSimple.w, defaultSpreaderSimple.w, counter.n, encTrace, encoders, spText
 //@   ensures dryfs [C09]: fsOps == old(fsOps) && fsFailed == old(fsFailed)
 //@   carries rootStream: rootChan
 //@ closure gtree.treePipeline.outputProgrammably#1
@@ -783,7 +786,7 @@ func specPreorderAll(roots []*Node, i int) []*Node {
 //@   requires nn: root != nil && root.hierarchy == 1
 
 //@ contract fromRootOutput
-//@   modifies Node.brnch.value, Node.brnch.path, out, wfail, defaultGrowSpreaderSimple.w, defaultSpreaderSimple.w, counter.n, encTrace, encoders, lastConfig
+//@   modifies Node.brnch.value, Node.brnch.path, out, wfail, defaultGrowSpreaderSimple.w, defaultSpreaderSimple.w, counter.n, encTrace, encoders, lastConfig, spText
 //@   ghostset lastConfig := cfg
 //@   ensures nilnode [C03]: root == nil ==> result == ErrNilNode && out == old(out) && wfail == old(wfail)
 //@   ensures notroot [C03]: root != nil && root.hierarchy != 1 ==> result == ErrNotRoot && out == old(out) && wfail == old(wfail)
@@ -861,6 +864,7 @@ func specPreorderAll(roots []*Node, i int) []*Node {
 //@   invariant roots: forall k int :: {roots[k]} 0 <= k && k < len(roots) ==> roots[k] != nil && roots[k].hierarchy == 1
 //@   invariant open: stack != nil ==> chain(stack)
 //@   invariant closed [C02]: stack == nil ==> len(roots) == 0
+//@   invariant bottom [C01,C02]: stack != nil ==> len(roots) > 0 && len(stack.nodes.view) >= 1 && stack.nodes.view[0] == last(roots)
 //@   invariant count [C02]: len(lnNodes) == rg.scanner.pos
 //@   invariant lines [C02]: forall j int :: {lnNodes[j]} 0 <= j && j < rg.scanner.pos ==> (md.allSpace(rg.scanner.lines[j]) ==> lnNodes[j] == nil) && (!md.allSpace(rg.scanner.lines[j]) ==> lineRepr(rg.scanner.lines[j], lnNodes[j]) && (lnNodes[j].hierarchy == 1 ==> contains(roots, lnNodes[j])))
 //@   decreases len(rg.scanner.lines) - rg.scanner.pos
@@ -958,7 +962,9 @@ func lemmaRawAllIsRenderAll(last, mid branchFormat, roots []*Node, i int) {
 // (records; reset when a producer starts; mirrored where the consumer receives the value), what the consumer may modify
 // between two yields (modifies), what resuming the producer may modify (resumes) and what holds when the producer
 // finishes (ensures). Heap separation between the trees already yielded and the one under construction is not
-// modelled: nothing about an earlier tree survives a resume of the generator. The functional statement is therefore
+// modelled: nothing about an earlier tree survives a resume of the generator. (That the generator does not touch a tree
+// after handing it over follows from its invariants open + bottom: every node it attaches to is on the stack, every stack
+// node hangs under the bottom of the stack, and the bottom of the stack is the pending, not yet yielded root.) The functional statement is therefore
 // made per root at hand-over time: spText accumulates, when the spreader receives a root, the text the drawing rule
 // (specRender) / the dry-run rule (specDryRoot) prescribes for that root as it is at that moment (the generator hands
 // a root over only when its block is closed), and the spreader's finish condition is out == old(out) ++ spText.
@@ -1042,6 +1048,7 @@ func lemmaRawAllIsRenderAll(last, mid branchFormat, roots []*Node, i int) {
 //@   invariant root: root != nil ==> root.hierarchy == 1
 //@   invariant open: stack != nil ==> chain(stack)
 //@   invariant closed: stack == nil ==> root == nil
+//@   invariant bottom [C01,C02]: stack != nil ==> root != nil && len(stack.nodes.view) >= 1 && stack.nodes.view[0] == root
 //@   invariant count [C02]: len(lnNodes) == rg.scanner.pos
 //@   invariant lines [C02]: forall j int :: {lnNodes[j]} 0 <= j && j < rg.scanner.pos ==> (md.allSpace(rg.scanner.lines[j]) ==> lnNodes[j] == nil) && (!md.allSpace(rg.scanner.lines[j]) ==> lineRepr(rg.scanner.lines[j], lnNodes[j]) && (lnNodes[j].hierarchy == 1 ==> lnNodes[j] == root || contains(rsRoots, lnNodes[j])))
 //@   decreases len(rg.scanner.lines) - rg.scanner.pos
@@ -1245,7 +1252,7 @@ func fsExistsAt(p string) bool { _, err := os.Stat(p); return !os.IsNotExist(err
 
 //@ func gtree.treeSimple.mkdirProgrammably
 //@   requires ok: simpleTreeOK(t, cfg) && root != nil && root.hierarchy == 1
-//@   modifies Node.brnch.value, Node.brnch.path, fsOps, fsFailed, defaultGrowerSimple.enabledValidation, out, wfail, counter.n
+//@   modifies Node.brnch.value, Node.brnch.path, fsOps, fsFailed, defaultGrowerSimple.enabledValidation, out, wfail, counter.n, spText
 //@   ensures ops [C06,C03]: cfg.encode == encodeDefault && !cfg.dryrun && result == nil ==> !fsExistsAt(fpJoin2(as(t.mkdirer, defaultMkdirerSimple).targetDir, root.name)) && fsOps == old(fsOps) ++ specMkOps(as(t.mkdirer, defaultMkdirerSimple).targetDir, cfg.fileExtensions, root) && fsFailed == old(fsFailed)
 //@   ensures exists [C06]: cfg.encode == encodeDefault && !cfg.dryrun && fsExistsAt(fpJoin2(as(t.mkdirer, defaultMkdirerSimple).targetDir, root.name)) ==> result != nil && fsOps == old(fsOps)
 //@   ensures validated [C07]: cfg.encode == encodeDefault && fsOps != old(fsOps) ==> validated(root)
@@ -1258,7 +1265,7 @@ func fsExistsAt(p string) bool { _, err := os.Stat(p); return !os.IsNotExist(err
 //@   modifies Node.children, Node.parent, Node.brnch.value, Node.brnch.path, list.List.view, list.Element.backOf, counter.n, bufio.Scanner.pos, bufio.Scanner.failed, markdown.Parser.isSharpRoot, markdown.Parser.spaces, markdown.Parser.sep, fsOps, fsFailed, defaultGrowerSimple.enabledValidation, lastForest, lnNodes
 //@ func gtree.treePipeline.mkdirProgrammably
 //@   requires ok: pipelineTreeOK(t, cfg) && root != nil && root.hierarchy == 1
-//@   modifies Node.brnch.value, Node.brnch.path, fsOps, fsFailed, defaultGrowerSimple.enabledValidation, out, wfail, counter.n
+//@   modifies Node.brnch.value, Node.brnch.path, fsOps, fsFailed, defaultGrowerSimple.enabledValidation, out, wfail, counter.n, spText
 //@   ensures dryrun [C09]: cfg.dryrun ==> fsOps == old(fsOps) && fsFailed == old(fsFailed)
 //@   carries rootStream: rootChan
 //@ closure gtree.treePipeline.mkdirProgrammably#1
@@ -1274,7 +1281,7 @@ func fsExistsAt(p string) bool { _, err := os.Stat(p); return !os.IsNotExist(err
 //@ applies fromMarkdownMkdir to gtree.MkdirFromMarkdown, gtree.Mkdir
 
 //@ contract fromRootMkdir
-//@   modifies Node.brnch.value, Node.brnch.path, fsOps, fsFailed, defaultGrowerSimple.enabledValidation, out, wfail, counter.n, lastConfig
+//@   modifies Node.brnch.value, Node.brnch.path, fsOps, fsFailed, defaultGrowerSimple.enabledValidation, out, wfail, counter.n, lastConfig, spText
 //@   ghostset lastConfig := cfg
 //@   ensures nilnode [C03]: root == nil ==> result == ErrNilNode && fsOps == old(fsOps)
 //@   ensures notroot [C03]: root != nil && root.hierarchy != 1 ==> result == ErrNotRoot && fsOps == old(fsOps)
